@@ -177,7 +177,7 @@ fn features(script: &str, e: &Value) -> Vec<&'static str> {
     let mut f = vec![];
     let has = |s: &str| script.contains(s);
     if has("return") { f.push("return"); }
-    if has("; return") && has("for i in") { f.push("return-in-loop?"); }
+    if has("; return") && has("for i in") { f.push("return+loop"); }
     if has("typeset v=") { f.push("local"); }
     if has("t=") { f.push("temp-assign"); }
     if has("unset -f") { f.push("unset-f"); }
@@ -191,7 +191,8 @@ fn features(script: &str, e: &Value) -> Vec<&'static str> {
     if has("$( ") { f.push("cmdsubst"); }
     if has("; ( ") || has("{ ( ") || has("() ( ") { f.push("subshell"); }
     if has("set -- ") { f.push("set-in-function"); }
-    if e["st"].as_i64() == Some(-1) { f.push("shell-exit-nz"); }
+    if has("unset v") || has("v() ") { f.push("namespace"); }
+    if e["st"].as_i64() == Some(-1) { f.push("final-status-nz"); }
     if e["tab"].as_array().map(|t| t.iter().any(|x| x["ro"] == true)).unwrap_or(false) { f.push("final-ro"); }
     f
 }
